@@ -480,7 +480,11 @@ func doCLI(c *core.Ctx, n *core.N) {
 }
 
 // doCLI2: two trees (on different tip names) in one input file: the loop over the input trees.
-func doCLI2(c *core.Ctx, a, b *core.N) {
+func doCLI2(c *core.Ctx, a, b *core.N) { doCLI2x(c, a, b, false) }
+
+// doCLI2x with toFile: the same with `-o file` (op C17.cli2o): the output file must hold the
+// neighbours of BOTH trees.
+func doCLI2x(c *core.Ctx, a, b *core.N, toFile bool) {
 	ta, err := core.Build(a)
 	if err != nil {
 		panic(err)
@@ -499,7 +503,21 @@ func doCLI2(c *core.Ctx, a, b *core.N) {
 		panic("c17: cannot re-read the input text: " + st)
 	}
 	file := c.TmpFile(textA + "\n" + textB + "\n")
-	r := c.RunCLI("", 30*time.Second, "nni", "-i", file)
+	var r core.CLIResult
+	op := "C17.cli2"
+	if toFile {
+		op = "C17.cli2o"
+		outf := c.TmpFile("")
+		r = c.RunCLI("", 30*time.Second, "nni", "-i", file, "-o", outf)
+		bs, _ := os.ReadFile(outf)
+		if strings.TrimSpace(r.Stdout) != "" {
+			r.Stdout = "STDOUT-NOT-EMPTY\n" + string(bs)
+		} else {
+			r.Stdout = string(bs)
+		}
+	} else {
+		r = c.RunCLI("", 30*time.Second, "nni", "-i", file)
+	}
 	out := "ok"
 	if r.Timeout {
 		out = "timeout"
@@ -515,7 +533,7 @@ func doCLI2(c *core.Ctx, a, b *core.N) {
 		d, st := parseDump(l)
 		fmt.Fprintf(&recs, "%s;%s;%s|", st, d, core.Escape(l))
 	}
-	c.Emit("C17.cli2", a.Dump(), b.Dump(), beforeA, beforeB, out, recs.String(), core.Escape(strings.TrimSpace(r.Stderr)))
+	c.Emit(op, a.Dump(), b.Dump(), beforeA, beforeB, out, recs.String(), core.Escape(strings.TrimSpace(r.Stderr)))
 }
 
 // doGlue exercises the glue of cmd/nni.go: input from stdin, output to a file (-o), a second
@@ -601,13 +619,27 @@ func Replay(c *core.Ctx, lines []string) {
 			}
 			seed, _ := strconv.ParseInt(f[2], 10, 64)
 			doHeap(c, f[1], seed, n)
+		case f[0] == "C17.reuse" && len(f) >= 4:
+			n, err := core.ParseDump(f[3])
+			if err != nil {
+				panic(err)
+			}
+			seed, _ := strconv.ParseInt(f[2], 10, 64)
+			doReuse(c, f[1], seed, n)
+		case f[0] == "C17.hist" && len(f) >= 4:
+			n, err := core.ParseDump(f[3])
+			if err != nil {
+				panic(err)
+			}
+			seed, _ := strconv.ParseInt(f[2], 10, 64)
+			doHist(c, f[1], seed, n)
 		case f[0] == "C17.glue" && len(f) >= 3 && c.Gotree != "":
 			n, err := core.ParseDump(f[2])
 			if err != nil {
 				panic(err)
 			}
 			doGlue(c, f[1], n)
-		case f[0] == "C17.cli2" && len(f) >= 3 && c.Gotree != "":
+		case (f[0] == "C17.cli2" || f[0] == "C17.cli2o") && len(f) >= 3 && c.Gotree != "":
 			a, err := core.ParseDump(f[1])
 			if err != nil {
 				panic(err)
@@ -616,7 +648,7 @@ func Replay(c *core.Ctx, lines []string) {
 			if err != nil {
 				panic(err)
 			}
-			doCLI2(c, a, b)
+			doCLI2x(c, a, b, f[0] == "C17.cli2o")
 		}
 	}
 }
@@ -642,6 +674,13 @@ func tipRoot(g *core.G, ro *core.N) *core.N {
 	low.E.Len = 0.375
 	low.PPos = g.Intn(len(low.Kids) + 1)
 	return &core.N{Name: "r0", Kids: []*core.N{low}}
+}
+
+func histKind(g *core.G) string {
+	if g.Chance(0.5) {
+		return "nested"
+	}
+	return "free"
 }
 
 func heapVariant(g *core.G) string {
@@ -712,6 +751,12 @@ func Run(c *core.Ctx) {
 			if c.G.Chance(0.3) {
 				doHeap(c, heapVariant(c.G), int64(c.G.Intn(1<<30)), un)
 			}
+			if c.G.Chance(0.35) {
+				doHist(c, histKind(c.G), int64(c.G.Intn(1<<30)), un)
+			}
+			if c.G.Chance(0.2) {
+				doReuse(c, []string{"graft", "remove"}[c.G.Intn(2)], int64(c.G.Intn(1<<30)), un)
+			}
 			// the rooted twin: root on one of the three branches at that node
 			first := c.G.Intn(3)
 			for i := 0; i < 3; i++ {
@@ -727,9 +772,18 @@ func Run(c *core.Ctx) {
 					if c.G.Chance(0.3) {
 						doHeap(c, heapVariant(c.G), int64(c.G.Intn(1<<30)), tr)
 					}
+					if c.G.Chance(0.5) {
+						doHist(c, histKind(c.G), int64(c.G.Intn(1<<30)), tr)
+					}
 				}
 				if c.G.Chance(0.3) {
 					doHeap(c, heapVariant(c.G), int64(c.G.Intn(1<<30)), ro)
+				}
+				if c.G.Chance(0.35) {
+					doHist(c, histKind(c.G), int64(c.G.Intn(1<<30)), ro)
+				}
+				if c.G.Chance(0.2) {
+					doReuse(c, []string{"graft", "remove", "unroot"}[c.G.Intn(3)], int64(c.G.Intn(1<<30)), ro)
 				}
 			}
 		}
@@ -795,7 +849,7 @@ func Run(c *core.Ctx) {
 		for i := 0; i < m; i++ {
 			if i%5 == 4 {
 				// two trees in one file (different tip names)
-				doCLI2(c, cliTree("t"), cliTree("u"))
+				doCLI2x(c, cliTree("t"), cliTree("u"), i%10 == 9)
 				continue
 			}
 			doCLI(c, cliTree("t"))
